@@ -620,6 +620,28 @@ def run_sqlite(case):
   with scratch_dir() as d:
     path = os.path.join(d, 'data.sqlite')
     pairs = [(i, client_examples(c)) for i, c in zip(ids, clients)]
+    if case.get('stale_file'):
+      # A database from an earlier build already sits at the output path.  The
+      # new build either refuses (then the caller removes the file and builds
+      # again) or replaces it: what is read back are the clients of THIS build.
+      stale_id = b'stale-' + (ids[0] if ids else b'x')
+      with sqlite_federated_data.SQLiteFederatedDataBuilder(path) as old:
+        old.add_many([(stale_id, {'z': np.arange(3, dtype=np.int32)})])
+      try:
+        probe = sqlite_federated_data.SQLiteFederatedDataBuilder(path)
+      except Exception:  # pylint: disable=broad-except
+        os.remove(path)
+        notes.append('existing_file_refused')
+      else:
+        probe.__exit__(None, None, None)
+        peek = sqlite_federated_data.SQLiteFederatedData.new(path)
+        try:
+          left = list(peek.client_ids())
+        finally:
+          peek._connection.close()  # pylint: disable=protected-access
+        require(stale_id not in left, 'sqlite:stale_clients_of_an_earlier_build_kept',
+                lambda: f'opening a builder on an existing database kept {left!r}')
+        os.remove(path)
     with sqlite_federated_data.SQLiteFederatedDataBuilder(path) as builder:
       pos = 0
 
@@ -671,6 +693,24 @@ def run_sqlite(case):
               lambda: f'{sorted(seen)} vs {sorted(ids)}')
       require([cid for cid, _ in fd.clients()] == seen,
               'sqlite:clients_order_not_deterministic')
+      # other reads on the same object while a walk is open: the walk goes on
+      walked = []
+      for cid, n_ex in fd.client_sizes():
+        require(fd.client_size(cid) == n_ex and len(fd.get_client(cid)) == n_ex,
+                'sqlite:read_inside_a_walk', repr(cid))
+        fd.num_clients()
+        walked.append(cid)
+      require(sorted(walked) == sorted(ids), 'sqlite:walk_cut_short_by_other_reads',
+              lambda: f'client_sizes() with get_client/client_size/num_clients inside: '
+                      f'{len(walked)} of {len(ids)} clients')
+      walked = []
+      for cid, ds in fd.clients():
+        fd.client_size(cid)
+        list(fd.client_ids())
+        walked.append(cid)
+      require(sorted(walked) == sorted(ids), 'sqlite:walk_cut_short_by_other_reads',
+              lambda: f'clients() with client_size/client_ids inside: '
+                      f'{len(walked)} of {len(ids)} clients')
       for cid in ids:
         require(fd.client_size(cid) == by_id[cid]['n'], 'sqlite:client_size',
                 lambda: f'{cid!r}: {fd.client_size(cid)} vs {by_id[cid]["n"]}')
@@ -1114,7 +1154,7 @@ def sqlite_cases(draw, tier):
                            st.binary(max_size=5).map(bytes.hex)))
   return {'clients': clients, 'chunks': chunks, 'missing': missing,
           'as_iterator': draw(st.booleans()), 'buffer': draw(st.integers(1, 4)),
-          'peek': draw(st.booleans())}
+          'peek': draw(st.booleans()), 'stale_file': draw(st.integers(0, 3)) == 0}
 
 
 # --- pickled states
